@@ -200,6 +200,28 @@ func budgetSite(stack string) string {
 	return "parser"
 }
 
+// topZnFrameSkip - first Zn frame whose function name contains none of the skip words
+func topZnFrameSkip(stack string, skip ...string) string {
+outer:
+	for _, ln := range strings.Split(stack, "\n") {
+		ln = strings.TrimSpace(ln)
+		if !strings.HasPrefix(ln, "github.com/DemoHn/Zn/") {
+			continue
+		}
+		for _, sk := range skip {
+			if strings.Contains(ln, sk) {
+				continue outer
+			}
+		}
+		fn := strings.TrimPrefix(ln, "github.com/DemoHn/Zn/")
+		if i := strings.LastIndex(fn, "("); i > 0 {
+			fn = fn[:i]
+		}
+		return fn
+	}
+	return "?"
+}
+
 // Guard - run fn; convert panics into (kind, msg, site)
 func Guard(fn func()) (kind string, msg string, site string) {
 	defer func() {
@@ -207,6 +229,8 @@ func Guard(fn func()) (kind string, msg string, site string) {
 			switch v := rec.(type) {
 			case zh.VerifBudgetExceeded:
 				kind, msg, site = KBudget, fmt.Sprintf("parser ticks=%d", v.Ticks), budgetSite(string(debug.Stack()))
+			case syntax.VerifBudgetExceeded:
+				kind, msg, site = KBudget, fmt.Sprintf("lexer ticks=%d", v.Ticks), "lexer:"+topZnFrameSkip(string(debug.Stack()), "verifTick", ".Next")
 			case exec.VerifBudgetExceeded:
 				kind, msg, site = KBudget, fmt.Sprintf("evaluator ticks=%d depth=%d", v.Ticks, v.Depth), "evaluator"
 			default:
@@ -238,6 +262,7 @@ type ParseResult struct {
 	PanicMsg  string
 	PanicSite string
 	Ticks     int64
+	LexTicks  int64
 }
 
 // Parse - parse source under the parser step budget, never panics
@@ -246,13 +271,17 @@ func Parse(src string, ticks int64) *ParseResult {
 	res := &ParseResult{}
 	zh.VerifTicks = 0
 	zh.VerifTickBudget = parseBudget(len(runes), ticks)
+	syntax.VerifTicks = 0
+	syntax.VerifTickBudget = int64(16*len(runes) + 256)
 	kind, msg, site := Guard(func() {
 		p := syntax.NewParser(runes, zh.NewParserZH())
 		res.Parser = p
 		res.Program, res.Err = p.Parse()
 	})
 	res.Ticks = zh.VerifTicks
+	res.LexTicks = syntax.VerifTicks
 	zh.VerifTickBudget = 0
+	syntax.VerifTickBudget = 0
 	switch {
 	case kind != "":
 		res.Kind, res.PanicMsg, res.PanicSite = kind, msg, site
